@@ -51,8 +51,18 @@ func bodyWAF(side string, limit, mem int, action string) (coraza.WAF, error) {
 		return w, nil
 	}
 	act := "Reject"
-	if action == "P" {
+	if strings.HasPrefix(action, "P") {
 		act = "ProcessPartial"
+	}
+	// "Rc" / "Pc": the limit in force is set for the transaction by a phase-1 ctl action, below the configured one
+	ctlLine := ""
+	if strings.HasSuffix(action, "c") {
+		if side == "req" {
+			ctlLine = fmt.Sprintf("SecAction \"id:8,phase:1,pass,nolog,ctl:requestBodyLimit=%d\"\n", limit)
+		} else {
+			ctlLine = fmt.Sprintf("SecAction \"id:8,phase:1,pass,nolog,ctl:responseBodyLimit=%d\"\n", limit)
+		}
+		limit += 7
 	}
 	var sb strings.Builder
 	sb.WriteString("SecRuleEngine On\nSecRequestBodyAccess On\nSecResponseBodyAccess On\nSecResponseBodyMimeType text/plain\n")
@@ -61,6 +71,7 @@ func bodyWAF(side string, limit, mem int, action string) (coraza.WAF, error) {
 	} else {
 		fmt.Fprintf(&sb, "SecResponseBodyLimit %d\nSecResponseBodyLimitAction %s\n", limit, act)
 	}
+	sb.WriteString(ctlLine)
 	sb.WriteString(`SecAction "id:1,phase:1,pass,nolog,ctl:requestBodyProcessor=RAW"
 SecAction "id:2,phase:2,pass,nolog"
 SecRule REQUEST_BODY "@unconditionalMatch" "id:3,phase:2,pass,nolog"
@@ -253,6 +264,10 @@ func init() {
 			opf := "-"
 			if len(ops) > 0 {
 				opf = strings.Join(ops, ",")
+			}
+			if c.r.Chance(0.15) {
+				action += "c"
+				c.stats.Hit("limit:by-ctl")
 			}
 			obs := c.run("body", side, strconv.Itoa(limit), strconv.Itoa(mem), action, opf)
 			c.stats.Hit("side:" + side + "/" + action)
